@@ -467,3 +467,12 @@ PROPS["C17"]["level_text"] += " A third of the cases add in-band chatter both wa
 PROPS["C19"]["level_text"] += " In half of the cases the first thing after the hand-back is the user typing (keys with an erase, or a lone Ctrl-C) while the server stays quiet: all of it reaches the server."
 PROPS["C20"]["level_text"] += " The terminal may be resized while the bar is paused."
 PROPS["C01"]["level_text"] += " A 'long line' profile delivers everything the receiver writes 0.6-2.2 s late (the sender's chunk-size adaptation then takes its slow branches)."
+
+# ---- every verdict of a test that can replay a saved case is confirmed alone (a stall of the whole machine - a snapshot, a suspend - lets
+# ---- every timeout of every running case expire at once; four C07 verdicts of a thorough pass were of that kind) ----
+_NO_REPLAY = ("Fuzz", "TestVF_C03Exhaustive", "TestVF_C04AllBytes", "TestVF_C16KnownF12", "TestVF_C15Exhaustive", "TestVF_C02Exhaustive",
+              "TestVF_C05Exit", "TestVF_C14ServerDies", "TestVF_C01ManyFiles", "TestVF_C19Timeouts")
+for _pid in PROPS:
+    for _t in PROPS[_pid]["tests"]:
+        if not _t["name"].startswith(_NO_REPLAY):
+            _t["confirm_alone"] = True
